@@ -389,10 +389,15 @@ class DataTypeBuilder(_parser.StatementStreamProcessor):
             assert sm is None, "I wish Python had a strong static type system"
             raise MissingSerializationModeError(
                 "%s: Either `@sealed` or `@extent ...` are required. "
-                "The smallest valid extent for this type (i.e., its max bit length) is %d bits (%d bytes). "
+                "The smallest valid extent for this type (i.e., its max bit length) is %s bits (%s bytes). "
                 "If you are not sure what this means, add the following line near the end of this definition: "
-                "`@extent %d * 8`"
-                % (inner.short_name, inner.extent, inner.extent // 8, DataTypeBuilder._suggest_extent_in_bytes(inner))
+                "`@extent %s * 8`"
+                % (
+                    inner.short_name,
+                    _error.format_integer(inner.extent),
+                    _error.format_integer(inner.extent // 8),
+                    _error.format_integer(DataTypeBuilder._suggest_extent_in_bytes(inner)),
+                )
             )
 
         return out
